@@ -1034,8 +1034,10 @@ func (g *genCtx) mutatedBlocks(sb *coin.SignedBlock) {
 				}
 			}
 		case "dup-tx":
-			b.Body.Transactions = append(b.Body.Transactions, b.Body.Transactions[0])
-			b.Head.BodyHash = b.Body.Hash()
+			if len(b.Body.Transactions) > 0 {
+				b.Body.Transactions = append(b.Body.Transactions, b.Body.Transactions[0])
+				b.Head.BodyHash = b.Body.Hash()
+			}
 		case "swap-tx":
 			if len(b.Body.Transactions) > 1 {
 				b.Body.Transactions[0], b.Body.Transactions[1] = b.Body.Transactions[1], b.Body.Transactions[0]
